@@ -557,6 +557,21 @@ impl<T: PartialOrd + Copy> Interval<T> {
         }
     }
 
+    ///
+    /// Apply an order-reversing function to the bounds of the interval:
+    /// the image of the lower bound becomes the upper bound and vice versa.
+    ///
+    fn applied_reversed<F>(&self, f: F) -> Self
+    where
+        F: Fn(T) -> T,
+    {
+        match self {
+            Interval::TwoSided(low, high) => Interval::TwoSided(f(*high), f(*low)),
+            Interval::UpperOneSided(low) => Interval::LowerOneSided(f(*low)),
+            Interval::LowerOneSided(high) => Interval::UpperOneSided(f(*high)),
+        }
+    }
+
     fn applied_both<F>(&self, f: F) -> Self
     where
         F: Fn(T) -> T,
@@ -643,19 +658,27 @@ where
     }
 }
 
-impl<F: Mul<F, Output = F> + PartialOrd + Copy> Mul<F> for Interval<F> {
+impl<F: Mul<F, Output = F> + PartialOrd + Copy + num_traits::Zero> Mul<F> for Interval<F> {
     type Output = Self;
 
     fn mul(self, rhs: F) -> Self::Output {
-        self.applied_both(|x| x * rhs)
+        if rhs < F::zero() {
+            self.applied_reversed(|x| x * rhs)
+        } else {
+            self.applied_both(|x| x * rhs)
+        }
     }
 }
 
-impl<F: Div<F, Output = F> + PartialOrd + Copy> Div<F> for Interval<F> {
+impl<F: Div<F, Output = F> + PartialOrd + Copy + num_traits::Zero> Div<F> for Interval<F> {
     type Output = Self;
 
     fn div(self, rhs: F) -> Self::Output {
-        self.applied_both(|x| x / rhs)
+        if rhs < F::zero() {
+            self.applied_reversed(|x| x / rhs)
+        } else {
+            self.applied_both(|x| x / rhs)
+        }
     }
 }
 
@@ -679,7 +702,7 @@ impl<F: Neg<Output = F> + PartialOrd + Copy> Neg for Interval<F> {
     type Output = Self;
 
     fn neg(self) -> Self::Output {
-        self.applied_both(|x| -x)
+        self.applied_reversed(|x| -x)
     }
 }
 
